@@ -336,9 +336,15 @@ func (r *FileRestorer) updateImports() error {
 
 		alias := effectiveAlias[path]
 
-		if alias == "." || alias == "_" || path == "C" {
-			// no conflict checking for dot-imports, anonymous imports or the cgo pseudo-import:
-			// none of them has a name in the code
+		if path == "C" {
+			// no conflict checking for the cgo pseudo-import: it is always called C in the code
+			// and never has an alias
+			r.packageNames[path], aliases[path] = "C", ""
+			continue
+		}
+
+		if alias == "." || alias == "_" {
+			// no conflict checking for dot-imports or anonymous imports
 			r.packageNames[path], aliases[path] = "", alias
 			continue
 		}
